@@ -34,7 +34,7 @@ FEATS = dict(div=False, ts=False, strftime=False, nulls_order=True, setops_all=T
              derived_order_nolimit=False,   # merge_subqueries keeps an inner ORDER BY that names dropped aliases
              outer_derived="plain",         # merge_subqueries inlines constants / non-strict expressions from the null-supplying
                                             # side: derived tables there project bare columns only
-             tvl=True, deep_corr=0.2, natural_join=0.1, derived_setop=0.12,
+             tvl=True, deep_corr=0.2, natural_join=0.1, derived_setop=0.12, agg_arith=0.3,
              subq_under_or=False,           # unnest_subqueries turns a subquery predicate under NOT / OR into a join filter
              cross_join_derived=False,      # eliminate_joins drops a cross-joined derived table that may be empty
              same_col_const_pair=False,     # simplify folds `c = 1 AND c < 0` to FALSE although it is NULL for NULL (C06 finding)
